@@ -14,9 +14,9 @@
 import ast
 import re
 
-from sa.interp import alpha, Interp, Scenario, Sym, Const, Bytes, render, render_items, merge_consts
+from sa.interp import alpha, expand_bound, Interp, Scenario, Sym, Const, Bytes, Obj, render, render_items, merge_consts
 from sa.loader import AnalysisError, dotted
-from sa.cfg import CFG, calls_in
+from sa.cfg import CFG, calls_in, own_exprs
 from sa import guards, codec, keyaction, tables
 from rules import C12
 
@@ -46,70 +46,236 @@ def run(rep, prog, tier):
 
 
 # ------------------------------------------------------------------------------------------------ C06.1
+def _elements(text, backing):
+    """The elements an iteration source denotes, as a set of atoms ('one', x) / ('all', coll), from the interpreter's value text:
+    chain(a, b), a + b, [x, *c], list(c) / tuple(c) / iter(c) are all the same collection.  A property that only returns an
+    attribute is that attribute (self.subkeys == self._children).  None when the text is not understood."""
+    try:
+        e = ast.parse(text, mode='eval').body
+    except SyntaxError:
+        return None
+
+    def norm(n):
+        t = ast.unparse(n)
+        for prop, attr in backing.items():
+            t = re.sub(r'(?<![\w.])%s(?![\w])' % re.escape(prop), attr, t)
+        return t
+
+    def rec(n):
+        if isinstance(n, ast.Call) and not n.keywords:
+            fn = dotted(n.func) or ''
+            if fn in ('itertools.chain', 'chain'):
+                out = set()
+                for a in n.args:
+                    if isinstance(a, ast.Starred):
+                        return None
+                    r = rec(a)
+                    if r is None:
+                        return None
+                    out |= r
+                return out
+            if fn in ('list', 'tuple', 'iter') and len(n.args) == 1:
+                return rec(n.args[0])
+        if isinstance(n, (ast.List, ast.Tuple)):
+            out = set()
+            for x in n.elts:
+                if isinstance(x, ast.Starred):
+                    r = rec(x.value)
+                    if r is None:
+                        return None
+                    out |= r
+                else:
+                    out.add(('one', norm(x)))
+            return out
+        if isinstance(n, ast.BinOp) and isinstance(n.op, ast.Add):
+            l, r = rec(n.left), rec(n.right)
+            return None if l is None or r is None else l | r
+        if isinstance(n, (ast.Attribute, ast.Name, ast.Call, ast.Subscript)):
+            return {('all', norm(n))}
+        return None
+    return rec(e)
+
+
+def _property_backing(ci, first):
+    """{'self.subkeys': 'self._children', ...} for the properties of ci whose getter only returns an attribute."""
+    out = {}
+    for c in ci.mro():
+        for name, pp in c.plain_props.items():
+            g = pp.get('get')
+            if g is None or 'set' in pp:
+                continue
+            body = [st for st in g.node.body if not (isinstance(st, ast.Expr) and isinstance(st.value, ast.Constant))]
+            if len(body) == 1 and isinstance(body[0], ast.Return) and isinstance(body[0].value, ast.Attribute) and \
+                    isinstance(body[0].value.value, ast.Name) and body[0].value.value.id == g.params[0]:
+                out.setdefault('%s.%s' % (first, name), '%s.%s' % (first, body[0].value.attr))
+    return out
+
+
+def positional(callee, args, kw):
+    """Argument texts in the callee's parameter order (keyword arguments bound by name); None when they do not fit."""
+    names = callee.params[1:] if callee.cls is not None else callee.params
+    out = list(args)
+    if len(out) > len(names):
+        return None
+    for n in names[len(out):]:
+        if n not in kw:
+            break
+        out.append(kw[n])
+    if len(out) != len(args) + len(kw):
+        return None
+    return out
+
+
+def method_calls_over(prog, fi, states, meth, recv_tail, callee=None):
+    """Calls `<key><recv_tail>.<meth>(...)` made by fi (on any path), each with the set of keys it is made for:
+    -> list of (ast.Call node, atoms or None, arg texts, receiver text)."""
+    first = fi.params[0]
+    backing = _property_backing(fi.cls, first) if fi.cls is not None else {}
+    seen, out = set(), []
+    for s in states:
+        for ft, args, kw, line, node in s.calls:
+            if not ft.endswith('.' + meth) or id(node) in seen:
+                continue
+            recv = ft[:-len(meth) - 1]
+            seen.add(id(node))
+            atoms = None
+            if recv.endswith(recv_tail):
+                key = recv[:len(recv) - len(recv_tail)] if recv_tail else recv
+                if key in s.bound:
+                    atoms = _elements(s.bound[key], backing)
+                elif re.match(r'^[A-Za-z_][\w.]*$', key):
+                    atoms = {('one', key)}
+            pa = positional(callee, args, kw) if callee is not None else None
+            out.append((node, atoms, pa if pa is not None else list(args) + ['%s=%s' % kv for kv in sorted(kw.items())], recv))
+    return out
+
+
+def _whole_key(fi):
+    first = fi.params[0]
+    backing = _property_backing(fi.cls, first)
+    return {('one', first), ('all', '%s.values()' % backing.get('%s.subkeys' % first, '%s.subkeys' % first))}
+
+
+def _one_shot_reuse(fi):
+    """Local names bound to a one-shot iterator (chain(...), iter(...), map / filter / zip, a generator expression) that are used
+    as an iteration source more than once: the second loop sees nothing."""
+    bad = []
+    srcs = {}
+    for n in ast.walk(fi.node):
+        it = n.iter if isinstance(n, (ast.For, ast.comprehension)) else None
+        if isinstance(it, ast.Name):
+            srcs[it.id] = srcs.get(it.id, 0) + 1
+    for n in ast.walk(fi.node):
+        if isinstance(n, ast.Assign) and len(n.targets) == 1 and isinstance(n.targets[0], ast.Name) and srcs.get(n.targets[0].id, 0) > 1:
+            v = n.value
+            if isinstance(v, ast.GeneratorExp) or (isinstance(v, ast.Call) and (dotted(v.func) or '').split('.')[-1] in
+                                                   ('chain', 'iter', 'map', 'filter', 'zip', 'reversed', 'islice', 'from_iterable')):
+                bad.append((n.targets[0].id, n.lineno))
+    return bad
+
+
+def _stmt_nodes_of(g, callnode):
+    """CFG nodes (all copies: finally bodies are duplicated per way out) whose own expressions contain the call."""
+    out = []
+    for n in g.nodes:
+        if n.ast is None:
+            continue
+        for e in own_exprs(n.ast):
+            if any(x is callnode for x in ast.walk(e)):
+                out.append(n)
+                break
+    return out
+
+
 def check_unlock(rep, prog):
     fi = prog.method('pgpy.pgp', 'PGPKey', 'unlock')
     rep.saw(fn=fi)
+    first = fi.params[0]
+    pw = fi.params[1] if len(fi.params) > 1 else 'passphrase'
+    states = Interp(prog, Scenario(inline=noinline)).run(fi)
+    up = prog.method('pgpy.packet.packets', 'PrivKeyV4', 'unprotect')
+    unp_calls = method_calls_over(prog, fi, states, 'unprotect', '._key', up)
+    dk = method_calls_over(prog, fi, states, 'decrypt_keyblob', '._key.keymaterial', prog.method('pgpy.packet.fields', 'PrivKey', 'decrypt_keyblob'))
+    clr_calls = method_calls_over(prog, fi, states, 'clear', '._key.keymaterial')
+    if not unp_calls and not dk:
+        raise AnalysisError('PGPKey.unlock no longer calls unprotect')
+    unp_calls = unp_calls + dk
+    risky_calls = set(id(c[0]) for c in unp_calls)
 
     def risky(st):
-        t = ast.unparse(st)
-        return '.unprotect(' in t or 'decrypt_keyblob(' in t or any(isinstance(n, (ast.Yield, ast.YieldFrom)) for n in ast.walk(st))
+        return any(id(n) in risky_calls for n in ast.walk(st)) or any(isinstance(n, (ast.Yield, ast.YieldFrom)) for n in ast.walk(st))
     g = CFG(fi.node, raising=risky)
-    unp = [n for n in g.nodes if n.kind == 'stmt' and n.ast is not None and '.unprotect(' in ast.unparse(n.ast)]
-    clr = [n for n in g.nodes if n.kind == 'stmt' and n.ast is not None and re.search(r'\.clear\(\)', ast.unparse(n.ast))]
-    if not unp:
-        raise AnalysisError('PGPKey.unlock no longer calls unprotect')
-    if not clr:
+    if not clr_calls:
         rep.violation('C06.1', 'PGPKey.unlock', 'no cleanup', 'nothing clears the secret material after the unlock scope', where=fi.where)
         return
-    clr_ids = set(n.id for n in clr)
-    # loop heads that iterate the cleanup: a path that enters the cleanup loop is considered to clear (the loop body is the clear)
-    clr_loops = set()
-    for n in g.nodes:
-        if n.kind == 'loop' and any(m in clr_ids for m, lab in g.succ[n.id] if lab == 'T'):
-            clr_loops.add(n.id)
-    through = clr_ids | clr_loops
+    want = _whole_key(fi)
+
+    def through_for(atom):
+        """CFG nodes that clear the key(s) `atom`: the statement making the call, and the loop whose every iteration makes it."""
+        ids = set()
+        for node, atoms, args, recv in clr_calls:
+            if atoms is None or atom not in atoms:
+                continue
+            ids |= set(n.id for n in _stmt_nodes_of(g, node))
+        for n in g.nodes:
+            if n.kind == 'loop':
+                for m, lab in g.succ[n.id]:
+                    if lab == 'T' and (m in ids or g.must_pass(ids, m, n.id)) and any(x in g.reachable(m) for x in ids):
+                        ids = ids | {n.id}
+        return ids
+    unp = []
+    for node, atoms, args, recv in unp_calls:
+        unp.extend(_stmt_nodes_of(g, node))
+    if not unp:
+        raise AnalysisError('PGPKey.unlock: the unprotect call is not made by a statement of unlock itself')
     for u in unp:
         for dst, what in ((g.exit.id, 'normal end of the scope'), (g.raise_exit.id, 'an exception (wrong passphrase on a later key, error in the with-body, generator close)')):
-            ok = g.must_pass(through, u.id, dst)
-            rep.check(ok, 'C06.1', 'PGPKey.unlock', 'unprotect at line %d -> %s' % (u.lineno, 'exit' if dst == g.exit.id else 'raise'),
+            ok = all(g.must_pass(through_for(a), u.id, dst) for a in sorted(want))
+            rep.check(ok, 'C06.1', 'PGPKey.unlock', 'unprotect -> %s' % ('exit' if dst == g.exit.id else 'raise'),
                       'after a key has been unprotected, %s can be reached without clearing the secret material' % what,
-                      where='%s:%d' % (fi.module.relpath, u.lineno), expected='every way out passes keymaterial.clear()',
+                      where='%s:%d' % (fi.module.relpath, u.lineno), expected='every way out passes keymaterial.clear() for the primary and every subkey',
                       found='a path from the unprotect call leaves the function without the cleanup')
-    ys = [n for n in g.nodes if n.kind == 'stmt' and n.ast is not None and any(isinstance(x, ast.Yield) for x in ast.walk(n.ast))]
+    ys = [n for n in g.nodes if n.kind == 'stmt' and n.ast is not None and any(isinstance(x, (ast.Yield, ast.YieldFrom)) for x in ast.walk(n.ast))]
     # the yield that hands out the unlocked key: the one reachable from an unprotect
     reach = set()
     for u in unp:
         reach |= g.reachable(u.id)
     hand = [y for y in ys if y.id in reach]
-    rep.check(len(hand) == 1, 'C06.1', 'PGPKey.unlock', 'yield after unprotect: %d' % len(hand), 'the unlocked key is handed out exactly once', where=fi.where)
+    rep.check(len(hand) >= 1, 'C06.1', 'PGPKey.unlock', 'yield after unprotect: %d' % len(set(y.lineno for y in hand)), 'the unlocked key is handed out', where=fi.where)
     for y in hand:
         for dst in (g.exit.id, g.raise_exit.id):
-            ok = g.must_pass(through, y.id, dst)
-            rep.check(ok, 'C06.1', 'PGPKey.unlock', 'yield at line %d -> %s' % (y.lineno, 'exit' if dst == g.exit.id else 'raise'),
+            ok = all(g.must_pass(through_for(a), y.id, dst) for a in sorted(want))
+            rep.check(ok, 'C06.1', 'PGPKey.unlock', 'yield -> %s' % ('exit' if dst == g.exit.id else 'raise'),
                       'when the unlock scope ends (normally or through an exception) the key must be locked again', where='%s:%d' % (fi.module.relpath, y.lineno))
-    # same iteration domain, and the thing cleared is the key material of each of them
-    def loop_iter_of(node):
-        for l in [n for n in ast.walk(fi.node) if isinstance(n, ast.For)]:
-            if any(x is node.ast for x in ast.walk(l)):
-                return ast.unparse(l.iter), ast.unparse(l.target)
-        return None, None
-    ui = sorted(set(loop_iter_of(u)[0] or '<no loop>' for u in unp))
-    ci_ = sorted(set(loop_iter_of(c)[0] or '<no loop>' for c in clr))
-    rep.check(ui == ci_ == ['itertools.chain([self], self.subkeys.values())'], 'C06.1', 'PGPKey.unlock', 'unprotect over %s, clear over %s' % (ui, ci_),
+    # same set of keys, and the thing cleared is the key material of each of them
+    def dom(calls):
+        out = set()
+        for node, atoms, args, recv in calls:
+            if atoms is None:
+                return None
+            out |= atoms
+        return out
+    ud, cd = dom(unp_calls), dom(clr_calls)
+    show = lambda d: sorted('%s%s' % ('' if k == 'one' else 'each of ', v) for k, v in d) if d is not None else 'not the key packets of a set of keys'  # noqa: E731
+    rep.check(ud == cd == want, 'C06.1', 'PGPKey.unlock', 'unprotect over %s, clear over %s' % (show(ud), show(cd)),
               'the cleanup must cover exactly the keys that were unprotected: the primary and every subkey', where=fi.where,
-              expected='itertools.chain([self], self.subkeys.values()) for both', found='%s / %s' % (ui, ci_))
-    for c in clr:
-        t = ast.unparse(c.ast)
-        var = loop_iter_of(c)[1]
-        rep.check(t == '%s._key.keymaterial.clear()' % var, 'C06.1', 'PGPKey.unlock', 'cleanup statement %s' % t,
-                  'the cleanup must clear the key material of each key', where='%s:%d' % (fi.module.relpath, c.lineno))
-    for u in unp:
-        t = ast.unparse(u.ast)
-        var = loop_iter_of(u)[1]
-        rep.check(t == '%s._key.unprotect(passphrase)' % var, 'C06.1', 'PGPKey.unlock', 'unprotect statement %s' % t,
-                  'each key is unprotected with the caller\'s passphrase', where='%s:%d' % (fi.module.relpath, u.lineno))
-    up = prog.method('pgpy.packet.packets', 'PrivKeyV4', 'unprotect')
-    rep.check('self.keymaterial.decrypt_keyblob(passphrase)' in ast.unparse(up.node), 'C06.1', 'PrivKeyV4.unprotect', 'delegates to decrypt_keyblob',
+              expected='%s for both' % show(want), found='%s / %s' % (show(ud), show(cd)))
+    for name, line in _one_shot_reuse(fi):
+        rep.violation('C06.1', 'PGPKey.unlock', 'iterator reused', 'the one-shot iterator %s is iterated a second time: the second loop (the cleanup) '
+                      'sees no keys' % name, where='%s:%d' % (fi.module.relpath, line))
+    for node, atoms, args, recv in clr_calls:
+        rep.check(atoms is not None and not args, 'C06.1', 'PGPKey.unlock', 'cleanup call %s.clear(%s)' % (alpha(recv), ', '.join(args)),
+                  'the cleanup must clear the key material of each key', where='%s:%d' % (fi.module.relpath, node.lineno))
+    for node, atoms, args, recv in unp_calls:
+        rep.check(atoms is not None and args == [pw], 'C06.1', 'PGPKey.unlock', 'unprotect call %s(%s)' % (alpha(recv), ', '.join(args)),
+                  'each key is unprotected with the caller\'s passphrase', where='%s:%d' % (fi.module.relpath, node.lineno))
+    rep.saw(fn=up)
+    ups = Interp(prog, Scenario(inline=noinline)).run(up)
+    me, p1 = up.params[0], (up.params[1] if len(up.params) > 1 else None)
+    dkb = prog.method('pgpy.packet.fields', 'PrivKey', 'decrypt_keyblob')
+    ok = bool(ups) and all(any(ft == '%s.keymaterial.decrypt_keyblob' % me and positional(dkb, args, kw) == [p1] for ft, args, kw, l, n in s.calls)
+                           for s in ups if s.raised is None)
+    rep.check(ok, 'C06.1', 'PrivKeyV4.unprotect', 'delegates to decrypt_keyblob',
               'unprotect decrypts the key material with the passphrase', where=up.where)
 
 
@@ -122,19 +288,111 @@ def private_classes(prog):
     return base, [c for c in fields.classes.values() if c is not base and base in c.mro()]
 
 
+SECRET_CALLS = {'decrypt_keyblob', '_decrypt', '__privkey__', 'private_key', 'from_private_bytes', 'private_numbers', 'private_bytes',
+                'generate_private_key', 'generate'}
+
+
+def secret_stores(f, priv, allowed):
+    """Attribute stores `self.<attr> = v` (attr not in `allowed`) in function f whose value is derived from a secret: a private
+    field, the decrypted key blob, the library private-key object, or a local that was computed from one of those (def-use
+    closure over the function's locals, whatever they are called)."""
+    me = f.params[0] if f.params else None
+    if me is None:
+        return []
+    # names bound by iterating the private field names
+    field_iters = set()
+
+    def is_privfields(e):
+        return any(isinstance(n, ast.Attribute) and n.attr == '__privfields__' for n in ast.walk(e))
+    for n in ast.walk(f.node):
+        if isinstance(n, (ast.For, ast.comprehension)) and is_privfields(n.iter):
+            field_iters |= {x.id for x in ast.walk(n.target) if isinstance(x, ast.Name)}
+    tainted = set()
+
+    def secret(e):
+        for n in ast.walk(e):
+            if isinstance(n, ast.Attribute) and isinstance(n.value, ast.Name) and n.value.id == me and n.attr in priv and isinstance(n.ctx, ast.Load):
+                return True
+            if isinstance(n, ast.Call):
+                nm = n.func.attr if isinstance(n.func, ast.Attribute) else (n.func.id if isinstance(n.func, ast.Name) else None)
+                if nm in SECRET_CALLS:
+                    return True
+                if nm == 'getattr' and len(n.args) >= 2 and isinstance(n.args[0], ast.Name) and n.args[0].id == me:
+                    k = n.args[1]
+                    if (isinstance(k, ast.Constant) and k.value in priv) or (isinstance(k, ast.Name) and k.id in field_iters):
+                        return True
+            if isinstance(n, ast.Name) and isinstance(n.ctx, ast.Load) and n.id in tainted:
+                return True
+        return False
+
+    def names(t):
+        return {x.id for x in ast.walk(t) if isinstance(x, ast.Name) and isinstance(x.ctx, ast.Store)}
+    changed = True
+    while changed:
+        changed = False
+        for n in ast.walk(f.node):
+            new = set()
+            if isinstance(n, ast.Assign) and secret(n.value):
+                for t in n.targets:
+                    new |= names(t)
+            elif isinstance(n, (ast.AugAssign, ast.AnnAssign)) and n.value is not None and secret(n.value):
+                new |= names(n.target)
+            elif isinstance(n, ast.NamedExpr) and secret(n.value):
+                new |= names(n.target)
+            elif isinstance(n, (ast.For, ast.comprehension)) and secret(n.iter):
+                new |= names(n.target)
+            elif isinstance(n, ast.With):
+                for it in n.items:
+                    if it.optional_vars is not None and secret(it.context_expr):
+                        new |= names(it.optional_vars)
+            if new - tainted:
+                tainted |= new
+                changed = True
+    out = []
+    for n in ast.walk(f.node):
+        tv = []
+        if isinstance(n, ast.Assign):
+            tv = [(t, n.value) for t in n.targets]
+        elif isinstance(n, (ast.AugAssign, ast.AnnAssign)) and n.value is not None:
+            tv = [(n.target, n.value)]
+        elif isinstance(n, ast.Call) and isinstance(n.func, ast.Name) and n.func.id == 'setattr' and len(n.args) == 3 and \
+                isinstance(n.args[0], ast.Name) and n.args[0].id == me and isinstance(n.args[1], ast.Constant):
+            tv = [(ast.Attribute(value=n.args[0], attr=n.args[1].value, ctx=ast.Store()), n.args[2])]
+        for t, v in tv:
+            for x in (t.elts if isinstance(t, (ast.Tuple, ast.List)) else [t]):
+                if isinstance(x, ast.Attribute) and isinstance(x.value, ast.Name) and x.value.id == me and x.attr not in allowed and secret(v):
+                    out.append((n, x.attr))
+    return out
+
+
 def check_clear(rep, prog):
     base, privs = private_classes(prog)
     cl = base.methods.get('clear')
     if cl is None:
         raise AnalysisError('PrivKey.clear vanished')
     rep.saw(fn=cl)
-    loops = [n for n in ast.walk(cl.node) if isinstance(n, ast.For)]
-    ok = len(loops) == 1 and ast.unparse(loops[0].iter) == 'self.__privfields__'
-    body = ' ; '.join(ast.unparse(x) for x in loops[0].body) if loops else ''
-    var = ast.unparse(loops[0].target) if loops else 'field'
-    ok = ok and ('setattr(self, %s, MPI(0))' % var) in body
-    rep.check(ok, 'C06.2', 'PrivKey.clear', body or '<no loop>', 'clear() must overwrite every private field with the zero placeholder',
-              where=cl.where, expected='for field in self.__privfields__: setattr(self, field, MPI(0))', found=body)
+    me = cl.params[0]
+    # every returning path overwrites each private field (a loop / comprehension over __privfields__) with the zero placeholder
+    outs = Interp(prog, Scenario(inline=noinline)).run(cl)
+    ok = bool(outs)
+    found = []
+    for s in outs:
+        if s.raised is not None:
+            continue
+        hit = False
+        for ft, args, kw, line, node in s.calls:
+            if ft in ('setattr', '%s.__setattr__' % me, 'object.__setattr__') and not kw:
+                a = args[1:] if ft != '%s.__setattr__' % me else args
+                if ft != '%s.__setattr__' % me and args[:1] != [me]:
+                    continue
+                found.append('%s(%s)' % (ft, ', '.join(expand_bound(s, x) for x in args)))
+                if len(a) == 2 and a[0] in s.bound and s.bound[a[0]] in ('%s.__privfields__' % me, 'type(%s).__privfields__' % me):
+                    zero = s.env.get(a[1])         # a locally built object is rendered by the local's name: look at what it is
+                    if (zero.text if isinstance(zero, Obj) else a[1]) == 'MPI(0)':
+                        hit = True
+        ok = ok and hit
+    rep.check(ok, 'C06.2', 'PrivKey.clear', 'zeroes %s' % (sorted(set(found)) or '<nothing>'), 'clear() must overwrite every private field with the zero placeholder',
+              where=cl.where, expected='for field in self.__privfields__: setattr(self, field, MPI(0)) on every path', found=sorted(set(found)))
     for c in privs:
         if c.name.startswith('Opaque'):
             continue
@@ -142,34 +400,38 @@ def check_clear(rep, prog):
         rep.check(own is cl, 'C06.2', '%s.clear' % c.name, 'resolves to %s' % (own.qualname if own else None),
                   'every private key-material class must use the clear() that covers all its private fields', where=c.where)
         pf = c.find_attr('__privfields__')
-        priv = set(ast.literal_eval(pf)) if pf is not None else set()
+        try:
+            priv = set(ast.literal_eval(pf)) if pf is not None else set()
+        except Exception:
+            raise AnalysisError('%s.__privfields__ is not a literal' % c.name)
         rep.check(bool(priv), 'C06.2', c.name, '__privfields__ = %s' % sorted(priv), 'a private class must declare its secret fields', where=c.where)
         # no secret-derived value may be kept in another attribute
         allowed_targets = priv | {'chksum', 'encbytes', 's2k', 'oid', 'kdf'} | set(_pubfields(c))
+        nscan = 0
         for k in c.mro():
             if k.module is not c.module:
                 continue
             for defs in k.all_defs.values():
                 for f in defs:
-                    p = f.params
-                    if not p:
-                        continue
-                    for n in ast.walk(f.node):
-                        if isinstance(n, ast.Assign):
-                            for t in n.targets:
-                                if isinstance(t, ast.Attribute) and isinstance(t.value, ast.Name) and t.value.id == p[0] and t.attr not in allowed_targets:
-                                    vt = ast.unparse(n.value)
-                                    secret = any(re.search(r'\b%s\.%s\b' % (p[0], x), vt) for x in priv) or '__privkey__' in vt or \
-                                        'private_key(' in vt or 'from_private_bytes' in vt or re.search(r'\bkb\b|\bpt\b', vt) is not None
-                                    rep.check(not secret, 'C06.2', '%s (via %s)' % (c.name, f.qualname), ast.unparse(n),
-                                              'a value derived from the secret integers is stored in attribute %s, which clear() does not wipe' % t.attr,
-                                              where='%s:%d' % (f.module.relpath, n.lineno), expected='secret values only in %s' % sorted(priv),
-                                              found=ast.unparse(n))
+                    for n, attr in secret_stores(f, priv, allowed_targets):
+                        rep.violation('C06.2', '%s (via %s)' % (c.name, f.qualname), 'secret kept in %s' % attr,
+                                      'a value derived from the secret integers is stored in attribute %s, which clear() does not wipe' % attr,
+                                      where='%s:%d' % (f.module.relpath, n.lineno), expected='secret values only in %s' % sorted(priv),
+                                      found=ast.unparse(n))
+                    nscan += 1
+        rep.ok('C06.2', c.name, 'no secret-derived value in an attribute outside the private fields (%d functions)' % nscan)
         # __privkey__ must build the library key on demand (no memo)
         pk = c.find_method('__privkey__')
         if pk is not None:
-            memo = [ast.unparse(n) for n in ast.walk(pk.node) if isinstance(n, (ast.Assign, ast.AugAssign)) and
-                    any(isinstance(t, ast.Attribute) for t in (n.targets if isinstance(n, ast.Assign) else [n.target]))]
+            memo = []
+            for n in ast.walk(pk.node):
+                if isinstance(n, (ast.Assign, ast.AugAssign, ast.AnnAssign)):
+                    for t in (n.targets if isinstance(n, ast.Assign) else [n.target]):
+                        for x in (t.elts if isinstance(t, (ast.Tuple, ast.List)) else [t]):
+                            if isinstance(x, (ast.Attribute, ast.Subscript)):
+                                memo.append(ast.unparse(n))
+                if isinstance(n, ast.Call) and (dotted(n.func) or '').split('.')[-1] in ('setattr', '__setattr__', 'setdefault', 'update'):
+                    memo.append(ast.unparse(n))
             glob = [ast.unparse(n) for n in ast.walk(pk.node) if isinstance(n, (ast.Global, ast.Nonlocal))]
             rep.check(not memo and not glob and not pk.node.decorator_list, 'C06.2', '%s.__privkey__' % pk.cls.name, 'memo %s' % (memo + glob),
                       'the library private-key object holds the secret integers; it must not be cached on the object', where=pk.where,
@@ -188,50 +450,97 @@ def _pubfields(c):
 def check_encrypt_keyblob(rep, prog):
     fi = prog.method('pgpy.packet.fields', 'PrivKey', 'encrypt_keyblob')
     rep.saw(fn=fi)
+    if len(fi.params) < 4:
+        raise AnalysisError('PrivKey.encrypt_keyblob signature changed: %s' % fi.params)
+    me, pw, enc_alg, hash_alg = fi.params[:4]
+    S2K = '%s.s2k' % me
     for s in Interp(prog, Scenario(inline=noinline)).run(fi):
+        if s.raised is not None:
+            continue
         st = {p: v for p, v, l, _ in s.stores}
-        rep.check(st.get('self.s2k.usage') == '254', 'C06.3', 'PrivKey.encrypt_keyblob', 'usage %s' % st.get('self.s2k.usage'),
+        rep.check(st.get(S2K + '.usage') == '254', 'C06.3', 'PrivKey.encrypt_keyblob', 'usage %s' % st.get(S2K + '.usage'),
                   'new protection must use S2K usage 254 (SHA-1 integrity check)', where=fi.where)
-        rep.check(st.get('self.s2k.specifier') == 'String2KeyType.Iterated', 'C06.3', 'PrivKey.encrypt_keyblob', 'specifier %s' % st.get('self.s2k.specifier'),
+        rep.check(st.get(S2K + '.specifier') == 'String2KeyType.Iterated', 'C06.3', 'PrivKey.encrypt_keyblob', 'specifier %s' % st.get(S2K + '.specifier'),
                   'new protection must use the iterated and salted S2K', where=fi.where)
-        rep.check(st.get('self.s2k.encalg') == 'enc_alg' and st.get('self.s2k.halg') == 'hash_alg', 'C06.3', 'PrivKey.encrypt_keyblob',
-                  'cipher %s hash %s' % (st.get('self.s2k.encalg'), st.get('self.s2k.halg')), 'the specifier records the cipher and hash chosen by the caller',
+        rep.check(st.get(S2K + '.encalg') == enc_alg and st.get(S2K + '.halg') == hash_alg, 'C06.3', 'PrivKey.encrypt_keyblob',
+                  'cipher %s hash %s' % (st.get(S2K + '.encalg'), st.get(S2K + '.halg')), 'the specifier records the cipher and hash chosen by the caller',
                   where=fi.where)
         enc = [c for c in s.calls if c[0] == '_encrypt']
         if len(enc) != 1:
             rep.violation('C06.3', 'PrivKey.encrypt_keyblob', '%d _encrypt calls' % len(enc), 'expected one encryption of the secret material', where=fi.where)
             continue
         a = enc[0][1]
-        M = 'EACH($1 in self.__privfields__;getattr(self, $1).to_mpibytes())'
+        M = 'EACH($1 in %s.__privfields__;getattr(%s, $1).to_mpibytes())' % (me, me)
         exp_pt = '%s HASH(sha1;%s)' % (M, M)
-        rep.check(alpha(a[0]) == exp_pt, 'C06.3', 'PrivKey.encrypt_keyblob', 'plaintext %s' % a[0],
-                  'the protected plaintext is the private MPIs followed by their SHA-1 (RFC 4880 5.5.3)', where=fi.where, expected=exp_pt, found=a[0])
-        rep.check(a[1:] == ['self.s2k.derive_key(passphrase)', 'enc_alg', 'enc_alg.gen_iv()'], 'C06.3', 'PrivKey.encrypt_keyblob', '_encrypt key/alg/iv %s' % a[1:],
-                  'encryption uses the passphrase-derived key, the chosen cipher and the IV stored in the specifier', where=fi.where)
+        rep.check(bool(a) and alpha(a[0]) == exp_pt, 'C06.3', 'PrivKey.encrypt_keyblob', 'plaintext %s' % (a[0] if a else None),
+                  'the protected plaintext is the private MPIs followed by their SHA-1 (RFC 4880 5.5.3)', where=fi.where, expected=exp_pt, found=a[0] if a else None)
+        iv = st.get(S2K + '.iv')
+        exp_rest = ['%s.derive_key(%s)' % (S2K, pw), enc_alg, '%s.gen_iv()' % enc_alg]
+        dk = prog.method('pgpy.packet.fields', 'String2Key', 'derive_key')
+        a = [a_.replace('derive_key(%s=' % dk.params[1], 'derive_key(') for a_ in a]
+        n_iv = sum(1 for e in s.events if e[0] == 'call' and e[1].endswith('.gen_iv'))     # one IV: the one stored is the one used
+        rep.check(a[1:] == exp_rest and iv == exp_rest[2] and not enc[0][2] and n_iv == 1, 'C06.3', 'PrivKey.encrypt_keyblob', '_encrypt key/alg/iv %s' % a[1:],
+                  'encryption uses the passphrase-derived key, the chosen cipher and the IV stored in the specifier', where=fi.where,
+                  expected='%s with s2k.iv = %s' % (exp_rest, exp_rest[2]), found='%s with s2k.iv = %s' % (a[1:], iv))
+        # the key is derived once the specifier is complete (salt, count, hash, type): derive_key reads them
+        idx_derive = next((i for i, e in enumerate(s.events) if e[0] == 'call' and e[1] == S2K + '.derive_key'), None)
+        late = [e[1] for i, e in enumerate(s.events) if e[0] == 'store' and e[1].startswith(S2K + '.') and idx_derive is not None and i > idx_derive
+                and e[1][len(S2K) + 1:] in ('specifier', 'halg', 'salt', 'count', 'encalg')]
+        rep.check(idx_derive is not None and not late, 'C06.3', 'PrivKey.encrypt_keyblob', 'derive_key after the specifier fields %s' % late,
+                  'the session key must be derived from the specifier that is stored with the ciphertext', where=fi.where, found=late)
         # clear() after the ciphertext is stored
-        idx_store = next((i for i, e in enumerate(s.events) if e[0] == 'store' and e[1] == 'self.encbytes'), None)
-        idx_clear = next((i for i, e in enumerate(s.events) if e[0] == 'call' and e[1] == 'self.clear'), None)
+        idx_store = next((i for i, e in enumerate(s.events) if e[0] == 'store' and e[1] == '%s.encbytes' % me), None)
+        idx_clear = next((i for i, e in enumerate(s.events) if e[0] == 'call' and e[1] == '%s.clear' % me), None)
         rep.check(idx_store is not None and idx_clear is not None and idx_clear > idx_store, 'C06.3', 'PrivKey.encrypt_keyblob',
                   'encbytes stored at %s, clear at %s' % (idx_store, idx_clear), 'after protecting, the cleartext secret fields must be wiped', where=fi.where)
-        rep.check(st.get('self.encbytes', '').startswith('_encrypt('), 'C06.3', 'PrivKey.encrypt_keyblob', 'encbytes = ciphertext',
-                  'the at-rest form is the ciphertext', where=fi.where)
+        rep.check(st.get('%s.encbytes' % me, '') == '_encrypt(%s)' % ', '.join(a), 'C06.3', 'PrivKey.encrypt_keyblob', 'encbytes = ciphertext',
+                  'the at-rest form is the ciphertext', where=fi.where, found=st.get('%s.encbytes' % me))
     pr = prog.method('pgpy.packet.packets', 'PrivKeyV4', 'protect')
-    src = ast.unparse(pr.node)
-    rep.check('self.keymaterial.encrypt_keyblob(passphrase, enc_alg, hash_alg)' in src and 'self.update_hlen()' in src, 'C06.3', 'PrivKeyV4.protect',
-              'encrypt_keyblob then update_hlen', 'protecting recomputes the packet length', where=pr.where)
+    rep.saw(fn=pr)
+    me = pr.params[0]
+    ok = True
+    outs = [s for s in Interp(prog, Scenario(inline=noinline)).run(pr) if s.raised is None]
+    for s in outs:
+        i_enc = next((i for i, e in enumerate(s.events) if e[0] == 'call' and e[1] == '%s.keymaterial.encrypt_keyblob' % me and
+                      positional(fi, e[2], e[3]) == pr.params[1:4]), None)
+        i_len = [i for i, e in enumerate(s.events) if e[0] == 'call' and e[1] == '%s.update_hlen' % me]
+        ok = ok and i_enc is not None and any(i > i_enc for i in i_len)
+    rep.check(ok and bool(outs), 'C06.3', 'PrivKeyV4.protect', 'encrypt_keyblob then update_hlen', 'protecting recomputes the packet length', where=pr.where)
     kp = prog.method('pgpy.pgp', 'PGPKey', 'protect')
-    loops = [ast.unparse(n.iter) for n in ast.walk(kp.node) if isinstance(n, ast.For)]
-    rep.check(loops == ['itertools.chain([self], self.subkeys.values())'], 'C06.3', 'PGPKey.protect', 'protects %s' % loops,
-              'protecting a key protects the primary and every subkey', where=kp.where)
+    rep.saw(fn=kp)
+    states = Interp(prog, Scenario(inline=noinline)).run(kp)
+    want = _whole_key(kp)
+    some = False
+    for s in states:
+        calls = method_calls_over(prog, kp, [s], 'protect', '._key', pr)
+        if not calls:
+            continue            # the refusing paths (public key, locked key) protect nothing
+        some = True
+        dom = set()
+        for node, atoms, args, recv in calls:
+            dom = None if (atoms is None or dom is None) else dom | atoms
+        rep.check(dom == want and all(args == kp.params[1:4] for _n, _a, args, _r in calls), 'C06.3', 'PGPKey.protect',
+                  'protects %s' % (sorted(v for _k, v in dom) if dom else dom),
+                  'protecting a key protects the primary and every subkey', where=kp.where, expected=sorted(v for _k, v in want),
+                  found=[(alpha(r), a) for _n, _a, a, r in calls])
+    if not some:
+        rep.violation('C06.3', 'PGPKey.protect', 'protects nothing', 'no path protects the key packets', where=kp.where)
+    for name, line in _one_shot_reuse(kp):
+        rep.violation('C06.3', 'PGPKey.protect', 'iterator reused', 'the one-shot iterator %s is iterated a second time' % name,
+                      where='%s:%d' % (kp.module.relpath, line))
 
 
 # ------------------------------------------------------------------------------------------------ C06.4
 def check_decrypt_order(rep, prog):
     base, privs = private_classes(prog)
     bd = base.methods.get('decrypt_keyblob')
+    if bd is None:
+        raise AnalysisError('PrivKey.decrypt_keyblob vanished')
+    rep.saw(fn=bd)
+    me = bd.params[0]
     # guards (same as C04.4)
     for usage in (254, 255):
-        sc = Scenario(bind={'self.s2k.usage': Const(usage)}, axioms={'not self.s2k': False}, inline=noinline)
+        sc = Scenario(bind={'%s.s2k.usage' % me: Const(usage)}, axioms={'%s.s2k' % me: True, 'bool(%s.s2k)' % me: True}, inline=noinline)
         outs = Interp(prog, sc).run(bd)
         PT = None
         for s in outs:
@@ -244,7 +553,8 @@ def check_decrypt_order(rep, prog):
             pred = lambda a, b, _PT=PT: a.replace(_PT, 'PT') == 'SLICE(PT;-20;)' and b.replace(_PT, 'PT') == 'HASH(sha1;SLICE(PT;;-20))'  # noqa: E731
             what = 'the SHA-1 check of the decrypted secret material'
         else:
-            pred = lambda a, b, _PT=PT: a.replace(_PT, 'PT') == 'self.bytes_to_int(SLICE(PT;-2;))' and b.replace(_PT, 'PT') == '(sum(SLICE(PT;;-2)) % 65536)'  # noqa: E731
+            pred = lambda a, b, _PT=PT: a.replace(_PT, 'PT') in ('%s.bytes_to_int(SLICE(PT;-2;))' % me, "int.from_bytes(SLICE(PT;-2;), 'big')") and \
+                b.replace(_PT, 'PT') in ('(sum(SLICE(PT;;-2)) % 65536)', '(sum(SLICE(PT;;-2)) & 65535)')  # noqa: E731
             what = 'the 16-bit checksum of the decrypted secret material'
         guards.check_guard(rep, 'C06.4', 'PrivKey.decrypt_keyblob', outs, pred, what, bd.where, scenario='usage %d' % usage)
     for c in privs:
@@ -254,18 +564,32 @@ def check_decrypt_order(rep, prog):
         rep.saw(fn=f)
         pf = set(ast.literal_eval(c.find_attr('__privfields__')))
         outs = Interp(prog, Scenario(inline=noinline)).run(f)
+        me_, pw = f.params[0], (f.params[1] if len(f.params) > 1 else None)
+        pre = me_ + '.'
+        seen = set()
         for s in outs:
-            first_store = next((i for i, e in enumerate(s.events) if e[0] == 'store' and e[1].startswith('self.') and e[1][5:] in pf), None)
-            base_call = next((i for i, e in enumerate(s.events) if e[0] == 'call' and e[1].startswith('super:') and e[1].endswith('decrypt_keyblob')), None)
-            rep.check(base_call is not None and (first_store is None or base_call < first_store), 'C06.4', '%s.decrypt_keyblob' % c.name,
-                      'base check at %s, first secret store at %s' % (base_call, first_store),
-                      'the checked decryption must come first: a wrong passphrase must raise before any secret field is written', where=f.where)
+            if s.raised is not None:
+                continue
+            first_store = next((i for i, e in enumerate(s.events) if e[0] == 'store' and e[1].startswith(pre) and e[1][len(pre):] in pf), None)
+            base_idx = [i for i, e in enumerate(s.events) if e[0] == 'call' and
+                        (e[1] in ('super:%s' % bd.qualname, '%s.decrypt_keyblob' % base.name)) and
+                        (positional(bd, e[2][1:] if e[1] == '%s.decrypt_keyblob' % base.name and e[2][:1] == [me_] else e[2], e[3]) == [pw])]
+            base_call = base_idx[0] if base_idx else None
+            key = ('order', base_call is not None and (first_store is None or base_call < first_store))
+            if key not in seen:
+                seen.add(key)
+                rep.check(key[1], 'C06.4', '%s.decrypt_keyblob' % c.name,
+                          'base check %s the first secret store' % ('precedes' if key[1] else 'does not precede'),
+                          'the checked decryption must come first: a wrong passphrase must raise before any secret field is written', where=f.where)
             # what is stored comes from the checked plaintext
+            vals = {(p_, l_): (v_.text if isinstance(v_, Obj) else t_) for p_, t_, l_, v_ in s.stores}   # a local object shows as what it is
             for e in s.events:
-                if e[0] == 'store' and e[1].startswith('self.') and e[1][5:] in pf:
-                    rep.check('decrypt_keyblob(passphrase)' in e[2], 'C06.4', '%s.decrypt_keyblob' % c.name, '%s = %s' % (e[1], e[2][:80]),
+                if e[0] == 'store' and e[1].startswith(pre) and e[1][len(pre):] in pf and (e[1], e[2]) not in seen:
+                    seen.add((e[1], e[2]))
+                    e = (e[0], e[1], vals.get((e[1], e[3]), e[2]), e[3])
+                    rep.check(base_call is not None and re.search(r'(?<![\w])(?:super\(%s\)|%s)\.decrypt_keyblob\(' % (base.name, base.name), e[2]) is not None, 'C06.4',
+                              '%s.decrypt_keyblob' % c.name, '%s = %s' % (e[1].replace(pre, 'self.'), e[2][:80]),
                               'secret fields must be read from the checked plaintext', where='%s:%d' % (f.module.relpath, e[3]))
-            break
 
 
 # ------------------------------------------------------------------------------------------------ C06.5
@@ -280,12 +604,17 @@ def check_export_discipline(rep, prog):
         rep.saw(fn=f)
         pf = c.find_attr('__privfields__')
         priv = set(ast.literal_eval(pf)) if pf is not None else set()
+        me = f.params[0]
         for protected in (True, False):
-            sc = Scenario(inline=noinline, axioms={'self.s2k': protected, 'not self.s2k': not protected}, bind={'self.s2k.usage': Const(254 if protected else 0)})
+            sc = Scenario(inline=noinline, axioms={'%s.s2k' % me: protected, 'bool(%s.s2k)' % me: protected},
+                          bind={'%s.s2k.usage' % me: Const(254 if protected else 0)})
             for s in Interp(prog, sc).run(f):
+                if s.raised is not None and s.ret is None:
+                    continue
                 r = render(s.ret)
-                mentions_priv = '__privfields__' in r or any(re.search(r'self\.%s\.to_mpibytes' % x, r) for x in priv)
-                has_enc = 'self.encbytes' in r
+                mentions_priv = '__privfields__' in r or any(re.search(r'(?<![\w.])%s\.%s(?!\w)' % (re.escape(me), x), r) for x in priv) or \
+                    any(re.search(r"getattr\(%s, '%s'\)" % (re.escape(me), x), r) for x in priv)
+                has_enc = re.search(r'(?<![\w.])%s\.encbytes(?!\w)' % re.escape(me), r) is not None
                 if protected:
                     rep.check(not mentions_priv and has_enc, 'C06.5', '%s.__bytearray__' % name, 'protected arm emits %s' % r[-120:],
                               'a protected key must serialise its ciphertext and none of the private fields', where=f.where,
@@ -293,7 +622,7 @@ def check_export_discipline(rep, prog):
                 else:
                     rep.check(mentions_priv and not has_enc, 'C06.5', '%s.__bytearray__' % name, 'unprotected arm emits %s' % r[-120:],
                               'an unprotected key serialises its private fields', where=f.where, found=r, scenario='unprotected')
-                rep.check('self.s2k.__bytearray__()' in r, 'C06.5', '%s.__bytearray__' % name, 'S2K specifier emitted', 'the S2K usage/specifier precedes the secret part',
+                rep.check('%s.s2k.__bytearray__()' % me in r, 'C06.5', '%s.__bytearray__' % name, 'S2K specifier emitted', 'the S2K usage/specifier precedes the secret part',
                           where=f.where, scenario='protected' if protected else 'unprotected')
 
 
@@ -318,11 +647,12 @@ def check_protected_parse(rep, prog):
         rep.saw(fn=f)
         for usage in (254, 255, 0):
             protected = usage != 0
-            sc = Scenario(inline=noinline, forward_stores=False, model_del=False, bind={'self.s2k.usage': Const(usage)},
-                          axioms={'not self.s2k': not protected, 'self.s2k': protected})
+            me = f.params[0]
+            sc = Scenario(inline=noinline, forward_stores=False, model_del=False, bind={'%s.s2k.usage' % me: Const(usage)},
+                          axioms={'bool(%s.s2k)' % me: protected, '%s.s2k' % me: protected})
             outs = Interp(prog, sc).run(f)
             for s in outs:
-                reads, problems = codec.reader_sequence(s, 'packet')
+                reads, problems = codec.reader_sequence(s, f.params[1])
                 scen = '%s usage %d' % (c.name, usage)
                 bad = [p for p in problems if p[0] in ('alias-then-consume', 'consume-what-you-read')]
                 rep.check(not bad, 'C06.7', '%s.parse' % c.name, '%s: %s' % (scen, [p[1] for p in bad] or 'consumes what it reads'),
@@ -330,8 +660,8 @@ def check_protected_parse(rep, prog):
                           'removes ciphertext octets' if bad else 'ok', where=f.where, found=[p[1] for p in bad], scenario=scen)
                 targets = [r.target for r in reads if r.target]
                 if protected:
-                    rep.check('self.encbytes' in targets, 'C06.7', '%s.parse' % c.name, '%s: stores %s' % (scen, targets),
+                    rep.check('%s.encbytes' % me in targets, 'C06.7', '%s.parse' % c.name, '%s: stores %s' % (scen, targets),
                               'protected secret material must be kept as ciphertext', where=f.where, scenario=scen)
                     pf = set(ast.literal_eval(c.find_attr('__privfields__')))
-                    rep.check(not any(t.startswith('self.') and t[5:] in pf for t in targets), 'C06.7', '%s.parse' % c.name,
+                    rep.check(not any(t.startswith(me + '.') and t[len(me) + 1:] in pf for t in targets), 'C06.7', '%s.parse' % c.name,
                               '%s: no private field parsed from ciphertext' % scen, 'ciphertext must not be read as cleartext MPIs', where=f.where, scenario=scen)
